@@ -19,7 +19,9 @@
  *   ops=0,1,2,8,9,10,3,11   opcodes          fins=01   masks=01
  *   lens=0,1,125,126,O      payload lengths; O = header-only frame declaring 10MiB+1,
  *                           M = header-only frame declaring 2^63
- *   extras=1     add a few long frames (65535/65536) to the alphabet
+ *   extras=1     add boundary kinds the reduced quick alphabet leaves out (125-byte payloads, pong, 0xB)
+ *   longmax=N    at most N frames with a payload >= 4000 bytes per sequence (default: no limit);
+ *                long frames are expensive here (every buffer beyond 128 KiB is mmap'ed)
  *   cutpos=edge|all   candidate cut positions: every header byte + first/last payload
  *                     byte + frame boundary | every byte
  *   bytewise=1   also run the all-cuts segmentation
@@ -38,7 +40,9 @@
 
 struct kind { int op, fin, mask; long len; };
 static struct kind kinds[1024]; static int nkinds;
-static int p_frames, p_cut_all, p_bytewise, p_appclose, p_big, p_dry;
+static int p_frames, p_cut_all, p_bytewise, p_appclose, p_big, p_dry, p_longmax;
+static int nshort;                    /* kinds[0..nshort) have payloads < LONG_LEN, the rest are long */
+#define LONG_LEN 4000
 
 static int parse_list(const char *s, long *out, int max)
 {
@@ -64,21 +68,26 @@ static void init(void)
 	p_bytewise = mc_param("bytewise", 1);
 	p_appclose = mc_param("appclose", 0);
 	p_big = !strcmp(mc_param_str("special", ""), "big");
+	p_longmax = mc_param("longmax", MAXFRAMES);
 	p_dry = mc_param("dry", 0);        /* development aid: enumerate the space without running sessions */
 	nops = parse_list(mc_param_str("ops", "0,1,2,8,9,10,3,11"), ops, 16);
 	nlens = parse_list(mc_param_str("lens", "0,1,125,126,O"), lens, 16);
 	nkinds = 0;
-	for (i = 0; i < nops; i++)
-		for (f = 0; fins[f]; f++)
-			for (m = 0; masks[m]; m++)
-				for (l = 0; l < nlens; l++) {
-					struct kind *k = &kinds[nkinds++];
-					k->op = (int)ops[i]; k->fin = fins[f] == '1'; k->mask = masks[m] == '1'; k->len = lens[l];
-				}
+	for (int pass = 0; pass < 2; pass++) {            /* short kinds first, long kinds last */
+		for (i = 0; i < nops; i++)
+			for (f = 0; fins[f]; f++)
+				for (m = 0; masks[m]; m++)
+					for (l = 0; l < nlens; l++) {
+						struct kind *k;
+						if ((lens[l] >= LONG_LEN) != pass) continue;
+						k = &kinds[nkinds++];
+						k->op = (int)ops[i]; k->fin = fins[f] == '1'; k->mask = masks[m] == '1'; k->len = lens[l];
+					}
+		if (!pass) nshort = nkinds;
+	}
 	if (mc_param("extras", 0)) {
 		/* boundary lengths and opcodes that the quick cross product leaves out */
 		static const struct kind ex[] = {
-			{1, 1, 1, 65536}, {2, 1, 0, 65535}, {1, 0, 1, 65535}, {0, 1, 1, 65536},
 			{1, 1, 1, 125}, {2, 1, 0, 125}, {9, 1, 1, 125}, {0, 0, 0, 125},
 			{10, 1, 1, 1}, {10, 1, 0, 0}, {10, 0, 1, 1}, {11, 1, 1, 0}, {11, 0, 0, 1},
 		};
@@ -86,7 +95,10 @@ static void init(void)
 		for (i = 0; i < (int)(sizeof ex / sizeof ex[0]); i++) {
 			for (j = 0; j < nkinds; j++)
 				if (kinds[j].op == ex[i].op && kinds[j].fin == ex[i].fin && kinds[j].mask == ex[i].mask && kinds[j].len == ex[i].len) break;
-			if (j == nkinds) kinds[nkinds++] = ex[i];   /* no duplicates: every kind is a distinct input */
+			if (j == nkinds) {                          /* no duplicates: every kind is a distinct input */
+				memmove(&kinds[nshort + 1], &kinds[nshort], (size_t)(nkinds - nshort) * sizeof kinds[0]);
+				kinds[nshort++] = ex[i]; nkinds++;
+			}
 		}
 	}
 }
@@ -113,20 +125,25 @@ static void add_cand(struct stream *st, size_t p)
 static void build_stream(struct stream *st, const struct kind *const *ks, int nf)
 {
 	static const unsigned char keys[MAXFRAMES][4] = { {0x37, 0xfa, 0x21, 0x3d}, {0x00, 0x81, 0xff, 0x7e}, {0x88, 0x01, 0x02, 0x80}, {0xa5, 0x5a, 0x00, 0x11} };
-	size_t cap = 64, i; int f;
-	for (f = 0; f < nf; f++) cap += 16 + (ks[f]->len > 0 ? (size_t)ks[f]->len : 0);
-	st->b = malloc(cap); st->n = 0; st->ncand = 0;
-	if (!st->b) abort();
+	/* harness-owned scratch buffers, grown once and reused by all executions (large
+	 * allocations are very expensive under ASan in this sandbox) */
+	static unsigned char *sbuf, *pbuf; static size_t scap, pcap;
+	size_t cap = 64, i, maxp = 1; int f;
+	for (f = 0; f < nf; f++) {
+		size_t pl = ks[f]->len > 0 ? (size_t)ks[f]->len : 0;
+		cap += 16 + pl; if (pl > maxp) maxp = pl;
+	}
+	if (cap > scap) { scap = cap * 2; sbuf = realloc(sbuf, scap); if (!sbuf) abort(); }
+	if (maxp > pcap) { pcap = maxp * 2; pbuf = realloc(pbuf, pcap); if (!pbuf) abort(); }
+	st->b = sbuf; st->n = 0; st->ncand = 0;
 	for (f = 0; f < nf; f++) {
 		const struct kind *k = ks[f];
 		size_t start = st->n, flen, hdr, plen = k->len > 0 ? (size_t)k->len : 0;
-		unsigned char *pl = malloc(plen ? plen : 1);
-		if (!pl) abort();
+		unsigned char *pl = pbuf;
 		fill_payload(pl, plen, f);
 		if (k->len == LEN_OVERSIZE) flen = rfc6455_encode(st->b + start, k->fin, 0, k->op, k->mask, keys[f], 64, WS_LIMIT + 1, NULL, 0);
 		else if (k->len == LEN_MSB) flen = rfc6455_encode(st->b + start, k->fin, 0, k->op, k->mask, keys[f], 64, 1ULL << 63, NULL, 0);
 		else flen = rfc6455_encode(st->b + start, k->fin, 0, k->op, k->mask, keys[f], 0, plen, pl, plen);
-		free(pl);
 		hdr = flen - plen;
 		st->fstart[f] = start;
 		st->n += flen;
@@ -292,25 +309,26 @@ static void body_big(void)
 	build_stream(&st, ks, nf);
 	cut = mc_choose(2, 0, "cut-in-header");
 	run_stream(ks, nf, &st, 2, cut ? 3 : -1);
-	free(st.b);
 }
 
 static void body(void)
 {
 	const struct kind *ks[MAXFRAMES]; struct stream st;
-	int nf, c, bytewise = 0;
+	int nf, c, bytewise = 0, nlong = 0;
 	if (p_big) { body_big(); return; }
 	for (nf = 0; nf < p_frames; nf++) {
-		int k = mc_choose(nkinds + 1, 0, "frame");
+		/* arity depends only on the choices made so far: once longmax long frames are in the
+		 * sequence, only the short kinds are offered */
+		int k = mc_choose((nlong >= p_longmax ? nshort : nkinds) + 1, 0, "frame");
 		if (!k) break;
 		ks[nf] = &kinds[k - 1];
+		if (k - 1 >= nshort) nlong++;
 	}
 	if (nf == 0) { mc_observe("(empty sequence)"); return; }
 	for (c = 0; c < nf; c++) describe(ks[c]);
 	build_stream(&st, ks, nf);
 	if (p_bytewise && st.ncand > 0) bytewise = mc_choose(2, 0, "all-cuts");
 	run_stream(ks, nf, &st, bytewise, -1);
-	free(st.b);
 }
 
 int main(int c, char **v)
